@@ -327,6 +327,26 @@ def musig_flow2(d1, d2, k11, k12, k21, k22, msg, root):
     return musig_flow([d1, d2], [(k11, k12), (k21, k22)], msg, root)
 
 
+def musig_two_sessions(d1, d2, k11, k12, k21, k22, msg, root_a, root_b):
+    """history: ONE MuSigTapScript object runs two complete sessions with the same nonces and the same message, first for
+    merkle root root_a, then for root_b (b"" = key-path without script tree); whatever the object remembers from the first
+    session must not leak into the second -> (key_a, sig_a, key_b, sig_b)"""
+    privs = [PrivateKey(d1), PrivateKey(d2)]
+    ks = [(k11, k12), (k21, k22)]
+    musig = MuSigTapScript([p.point for p in privs])
+    out = []
+    for root in (root_a, root_b):
+        nonce_sums = musig.nonce_sums([(k[0] * G, k[1] * G) for k in ks])
+        r = musig.compute_r(nonce_sums, msg)
+        s_sum = 0
+        for priv, k in zip(privs, ks):
+            s_sum += musig.sign(priv, musig.compute_k(k, nonce_sums, msg), r, msg, root)
+        sig = musig.get_signature(s_sum, r, msg, root)
+        key = musig.point.tweaked_key(root) if root else musig.point.even_point()
+        out += [key.xonly(), sig.serialize()]
+    return tuple(out)
+
+
 def musig_flow3(d1, d2, d3, k11, k12, k21, k22, k31, k32, msg, root):
     return musig_flow([d1, d2, d3], [(k11, k12), (k21, k22), (k31, k32)], msg, root)
 
